@@ -7,8 +7,7 @@ SRC = {'can': ['src/avtp/acf/Can.c', 'src/avtp/Utils.c'],
        'can_brief': ['src/avtp/acf/CanBrief.c', 'src/avtp/acf/Can.c', 'src/avtp/Utils.c']}
 
 
-def run(tier, only=None):
-    chk = Check('C06', tier)
+def build(tier, only, chk):
     jobs = []
     for fmt in ('can', 'can_brief'):
         if only and fmt not in only.split(','):
@@ -36,6 +35,12 @@ def run(tier, only=None):
                             unwind=max(70, H + ln + 16), unwindset=WALKER, timeout=600, object_bits=12,
                             meta={'format': fmt, 'payload_length': ln, 'message_object_bytes': H + ln + pad,
                                   'payload_object_bytes': ln, 'layout': 'exact extent'}))
+    return jobs
+
+
+def run(tier, only=None):
+    chk = Check('C06', tier)
+    jobs = build(tier, only, chk)
     chk.run(jobs)
     chk.assumptions = STD_ASSUME + [
         'payload_length beyond what the 9-bit length field can express (message > 2044 bytes) is outside the claim',
